@@ -363,11 +363,54 @@ func checkC11(c *Ctx) {
 						return nil, false
 					}
 					undecided := ""
+					ctxMember := "" // the member of the record that holds the context its cancel function cancels
+					type waitTarget struct {
+						h     *ssa.Function
+						is    func(ssa.Value) bool
+						after ssa.Instruction
+					}
+					var targets []waitTarget
 					switch r := rec.(type) {
 					case *ssa.Alloc:
 						if cv, ok := cancelMember(r); ok {
 							if e0, ok := withCtxOf(cv); ok {
 								isConnCtx = func(v ssa.Value) bool { return unspill(v) == e0 }
+								for name, v := range memberStores(r) {
+									if unspill(v) == e0 {
+										ctxMember = name
+									}
+								}
+							} else if p, isParam := unspill(cv).(*ssa.Parameter); isParam && depth < 2 {
+								// the record is filled in by a registering helper from a cancel function it is handed:
+								// the handler is the caller that made the context, and waits after the call
+								idx := -1
+								for i, q := range holder.Params {
+									if q == p {
+										idx = i
+									}
+								}
+								for _, e := range ir.Callers(c.G, holder) {
+									site, ok := e.Site.(*ssa.Call)
+									if !ok || !c.P.IsLib(e.Caller.Func) || idx < 0 {
+										continue
+									}
+									ai := idx
+									if site.Call.IsInvoke() {
+										ai--
+									}
+									if ai < 0 || ai >= len(site.Call.Args) {
+										continue
+									}
+									if e0, ok := withCtxOf(site.Call.Args[ai]); ok {
+										e0 := e0
+										targets = append(targets, waitTarget{e.Caller.Func, func(v ssa.Value) bool { return unspill(v) == e0 }, site})
+									} else {
+										undecided = "the cancel function handed to " + fname(holder) + " by " + fname(e.Caller.Func) + " is not the result of a context.With* call"
+									}
+								}
+								if len(targets) == 0 && undecided == "" {
+									undecided = "no library caller hands " + fname(holder) + " a cancel function"
+								}
 							} else {
 								undecided = "the cancel function stored in the record is not the result of a context.With* call of the handler"
 							}
@@ -410,6 +453,7 @@ func checkC11(c *Ctx) {
 									}
 								}
 								if member != "" {
+									ctxMember = member
 									isConnCtx = func(v ssa.Value) bool {
 										f, base, ok := ir.LoadedField(unspill(v))
 										return ok && f.Name == member && sameValue(ir.Unwrap(base), rec)
@@ -459,6 +503,9 @@ func checkC11(c *Ctx) {
 							sprintf("cannot identify the context that the cancel function of the record registered by %s cancels (%s): whether the handler ends when DELETE, a replacing stream or shutdown call that function is undecided", fname(holder), undecided))
 					}
 					if isConnCtx != nil {
+						targets = append(targets, waitTarget{holder, isConnCtx, after})
+					}
+					if len(targets) > 0 {
 						doneOf := func(ch ssa.Value, is func(ssa.Value) bool) bool {
 							oc := originCall(ch)
 							return oc != nil && ir.CallName(oc) == "(context.Context).Done" && is(oc.Call.Value)
@@ -520,6 +567,19 @@ func checkC11(c *Ctx) {
 											inner = sc.Params[i]
 										}
 									}
+									if inner == nil && ctxMember != "" {
+										// the helper is handed the record itself and waits on the context kept in it
+										for i, a := range x.Call.Args {
+											if sameValue(ir.Unwrap(a), rec) && i < len(sc.Params) {
+												recParam := sc.Params[i]
+												waits(sc, func(v ssa.Value) bool {
+													f, base, ok := ir.LoadedField(unspill(v))
+													return ok && f.Name == ctxMember && ir.Unwrap(base) == ssa.Value(recParam)
+												}, nil, d+1)
+												return
+											}
+										}
+									}
 									if inner == nil {
 										waits(sc, nil, nil, d+1)
 									} else {
@@ -528,7 +588,10 @@ func checkC11(c *Ctx) {
 								}
 							})
 						}
-						waits(holder, isConnCtx, after, 0)
+						for _, t := range targets {
+							holder = t.h
+							waits(t.h, t.is, t.after, 0)
+						}
 					}
 				}
 				endsOnCancel(fn, rec, ins.Instr, 0)
